@@ -207,7 +207,10 @@ func (p *c9prog) step(c *fw.Ctx) {
 		add("concat-self", func() { p.declare(p.fresh("b"), pt.Bin("+", src, src)); p.created++ })
 		// appending one element: the result of a concatenation has spare capacity, later results must not share it
 		add("concat-one", func() { p.declare(p.fresh("b"), pt.Bin("+", src, pt.A(k.elem))); p.created++ })
-		add("concat-other", func() { p.declare(p.fresh("b"), pt.Bin("+", src, pt.ArrLit{Els: k.v2.(pt.ArrLit).Els[:1]})); p.created++ })
+		add("concat-other", func() {
+			p.declare(p.fresh("b"), pt.Bin("+", src, pt.ArrLit{Els: k.v2.(pt.ArrLit).Els[:1]}))
+			p.created++
+		})
 		add("repeat", func() { p.declare(p.fresh("b"), pt.Bin("*", src, pt.N(2))); p.created++ })
 	}
 	if T.K == pt.Bool {
@@ -338,13 +341,13 @@ func runC09(w *fw.Worker) {
 						w.Nontrivial()
 					}
 					v, skip := diffProg(w, "alias", src, prog, nil)
-				for _, a := range p.actions {
-					if skip {
-						w.Count("action-skipped:"+a, 1)
-					} else {
-						w.Count("action-judged:"+a, 1)
+					for _, a := range p.actions {
+						if skip {
+							w.Count("action-skipped:"+a, 1)
+						} else {
+							w.Count("action-judged:"+a, 1)
+						}
 					}
-				}
 					if n == 2 && p.created > 0 && p.updated > 0 {
 						w.Sample(src)
 					}
